@@ -246,12 +246,13 @@ var (
 		{1: "Hello world", 2: "second text", 3: "third"},
 		{1: "a & b <c> \"d\" 'e'", 2: "x < y > z", 3: "\U0001F600 non-BMP \U00010348"},
 		{1: "ünï cödé 日本語", 2: "12:34:56", 3: "tab\there"},
+		{1: "A", 2: "b", 3: "!"}, // one-character runs
 	}
 )
 
 type Pool struct{ Text map[int]string }
 
-func PoolFor(n int) Pool { return Pool{Text: textPools[((n%3)+3)%3]} }
+func PoolFor(n int) Pool { return Pool{Text: textPools[((n%len(textPools))+len(textPools))%len(textPools)]} }
 
 func rev(m map[int]string, s string) int {
 	for k, v := range m {
@@ -290,6 +291,10 @@ func ExprString(x Expr) string {
 		return s
 	case "frames":
 		return fmt.Sprintf("%02d:%02d:%02d:%02d", x.H, x.M, x.S, x.Ff)
+	}
+	if x.Unit == "T" {
+		// vi * 10^4 ticks, written out in full
+		return strconv.Itoa(x.Vi) + "0000t"
 	}
 	s := strconv.Itoa(x.Vi)
 	if x.Vd > 0 {
